@@ -4,6 +4,16 @@ _NOTE = ("Trusted base: CPython 3.12 ast parser, the rule slot tables (confirmed
          "CFG/dominator code. Decides only the named structural clauses (necessary conditions); the runtime behaviour as a whole is not decided.")
 
 CLAIMED = {
+    "C11": {
+        "text": "Kernel soundness lints decided on every run over fast_pareto.py/pareto.py: no acceptance test is gated by a running bound seeded from a finite "
+                "literal; comparison dtype never narrower than the input (known finding F-C11-2); exact shape of the window dominance predicate; block-constant "
+                "coherence at all shift/length sites; tie-safe presort requirement for the append-only window (known finding F-C11-3); goal-table agreement and "
+                "single negation of max columns along both chains; dedup default/keep-first at all call sites. Each is a necessary condition for the stated "
+                "robustness to +inf, ties, mixed magnitudes and dtype; the exact output set for every matrix is a value property and is not decided.",
+        "design_ref": "DESIGN.md section 3, C11",
+        "note": _NOTE + " Two genuine defects are recorded as known findings (known_findings.json) rather than repaired.",
+        "technique": "static analysis: control-dependence of acceptance stores, seed/constant propagation, predicate-shape and table-agreement rules (ast/CFG)",
+    },
     "C29": {
         "text": "Decided on every run from source: (T1) no name-keyed lookup compares a str with a builtin list of model objects, and the per-Einsum entry is "
                 "selected by comparing its name with the requested Einsum name; (T2) every caller of get_renames_for_einsum passes the Einsum's own name; "
